@@ -167,8 +167,14 @@ func fuzzDecoder(f *testing.F, kind string) {
 		enc := ctx.enc[kind]
 		sel := []byte{byte(ci)}
 		f.Add(append(append([]byte{}, sel...), enc...))
+		// Short inputs: 0-3 bytes and the end of the fixed header; the fuzz
+		// function hands the bytes to the decoder as exact-capacity
+		// allocations (safeDecode), not as slices of the engine's buffer.
+		for _, k := range []int{0, 1, 2, 3, 9, 10, 11} {
+			f.Add(append(append([]byte{}, sel...), enc[:k]...))
+		}
+		f.Add(append(append([]byte{}, sel...), enc[:len(enc)-1]...))
 		if kind != "r3" {
-			f.Add(append(append([]byte{}, sel...), enc[:len(enc)-1]...))
 			f.Add(append(append(append([]byte{}, sel...), enc...), 0))
 			d := gen.NewDRBG(uint64(ci), 50)
 			m := applyOps(enc, []MutOp{{Op: "flip", Pos: 10 + d.Intn(len(enc)-10), Val: d.Intn(8)}}, d, nil)
